@@ -27,6 +27,12 @@ pub struct T2;
 pub struct T3;
 pub struct T4;
 pub struct T5;
+pub struct T6;
+pub struct T7;
+pub struct T8;
+pub struct T9;
+pub struct T10;
+pub struct T11;
 
 pub fn type_id_of(k: usize) -> std::any::TypeId {
     use std::any::TypeId;
@@ -37,6 +43,12 @@ pub fn type_id_of(k: usize) -> std::any::TypeId {
         3 => TypeId::of::<T3>(),
         4 => TypeId::of::<T4>(),
         5 => TypeId::of::<T5>(),
+        6 => TypeId::of::<T6>(),
+        7 => TypeId::of::<T7>(),
+        8 => TypeId::of::<T8>(),
+        9 => TypeId::of::<T9>(),
+        10 => TypeId::of::<T10>(),
+        11 => TypeId::of::<T11>(),
         _ => unreachable!(),
     }
 }
@@ -44,8 +56,8 @@ pub fn type_id_of(k: usize) -> std::any::TypeId {
 #[derive(Clone, Debug, PartialEq, Eq)]
 pub struct SimFn {
     pub id: usize,
-    pub reads: u8,
-    pub writes: u8,
+    pub reads: u16,
+    pub writes: u16,
     /// bumped by the `mut` APIs (user-visible mutation through `&mut F`)
     pub visits: u32,
 }
